@@ -125,6 +125,16 @@ def _resolve_field_types(cls: type[Any]) -> None:
             field.type = hints[field.name]
 
 
+def _merged_meta_mappings(cls: type[Any], name: str) -> dict[str, str]:
+    """Merge the `Meta.<name>` maps of a class and its bases: a Meta declared by a subclass hides the one of its base,
+    but the inherited fields keep the keys their own class mapped them to (the most derived entry wins)."""
+    mappings: dict[str, str] = {}
+    for klass in cls.__mro__:
+        for key, value in getattr(klass.__dict__.get("Meta"), name, {}).items():
+            mappings.setdefault(key, value)
+    return mappings
+
+
 def _make_dataclass_structure_fn(cls: type[T]) -> Any:
     """
     Create a structure function for a dataclass with automatic name transformation.
@@ -146,8 +156,8 @@ def _make_dataclass_structure_fn(cls: type[T]) -> Any:
             json_key = python_name  # Default: no transformation
 
             # Check if class has Meta with explicit mappings
-            if hasattr(cls, "Meta") and hasattr(cls.Meta, "key_transform_with_load"):  # type: ignore[attr-defined]
-                mappings: dict[str, str] = cls.Meta.key_transform_with_load  # type: ignore[attr-defined]
+            if hasattr(cls, "Meta"):
+                mappings: dict[str, str] = _merged_meta_mappings(cls, "key_transform_with_load")
                 # Meta.key_transform_with_load is: {"json_key": "python_field"}
                 # Find the JSON key that maps to this Python field
                 for jk, pf in mappings.items():
@@ -188,8 +198,8 @@ def _make_dataclass_unstructure_fn(cls: type[T]) -> Any:
             json_key = python_name  # Default: no transformation
 
             # Check if class has Meta with explicit mappings
-            if hasattr(cls, "Meta") and hasattr(cls.Meta, "key_transform_with_dump"):  # type: ignore[attr-defined]
-                mappings: dict[str, str] = cls.Meta.key_transform_with_dump  # type: ignore[attr-defined]
+            if hasattr(cls, "Meta"):
+                mappings: dict[str, str] = _merged_meta_mappings(cls, "key_transform_with_dump")
                 # Use explicit mapping if available, otherwise keep Python name
                 json_key = mappings.get(python_name, python_name)
             # No Meta mappings - use Python name as-is (no camelCase assumption)
